@@ -409,8 +409,13 @@ class SeriesOps:
                     g.setcol(k, ("coldata", M_term(v)))
             self.log("frame-literal", node, dst=g.obj, cols={str(k): M_term(v) for k, v in data.items()})
             return g
-        g = Frame(("records", to_term(data), tuple(sorted((k, to_term(v)) for k, v in kw.items()))))
-        self.log("frame-from-records", node, dst=g.obj, data=to_term(data))
+        dt = to_term(data)
+        g = Frame(("records", dt, tuple(sorted((k, to_term(v)) for k, v in kw.items()))))
+        if dt[0] == "comp" and isinstance(dt[2], tuple) and dt[2] and dt[2][0] == "dict" and all(T.is_const(k) and isinstance(k[1], str) for k, _ in dt[2][1]):
+            g.known = []
+            for k, v in dt[2][1]:
+                g.setcol(k[1], ("reccol", g.base, v))
+        self.log("frame-from-records", node, dst=g.obj, data=dt)
         return g
 
     # ------------------------------------------------------------------ builtins
